@@ -170,14 +170,14 @@ CLAIMED = {
         "(request_only_missing, present_not_requested): every round's request contains only chunks marked missing, a chunk the "
         "scan found present keeps its valid mark through copy, reset and every round, and valid chunks are never modified.  "
         "COMPLETENESS IS PROVED for well-formed responses (C04Complete.lean: req_ready, round_complete, loop_complete, "
-        "afterHeader_complete, update_complete): a round's request is the list of spans of groups of adjacent extents of missing "
+        "afterHeader_complete, update_complete, marks_of_scan, update_converges): a round's request is the list of spans of groups of adjacent extents of missing "
         "chunks; the reference server's slice for each range is the concatenation of the stored bytes of its group; with the regex "
         "oracle reading that response as intended (hypothesis Honest) the round is carried out under ANY fragment size, every "
         "requested chunk becomes valid and no other mark changes; the number of marks still 0 strictly decreases, so the loop "
         "ends without error and with every chunk valid, and the target IS B (or a collision).  Hypotheses that remain: Honest "
         "(glibc's regexec finds the boundary and the two numbers of each Content-Range; the part header's first CRLFCRLF is its "
-        "end; the closing delimiter holds no part header) and Marks (after scan, copy and reset there is one mark per chunk, 0 or "
-        "1, and chunks without stored bytes are valid) - both are met on every explored run, which is what the check decides on explored "
+        "end; the closing delimiter holds no part header) and that the scan marked the chunks without stored bytes valid (marks_of_scan proves the rest of the shape "
+        "of the marks: one per chunk, 0 or 1, for any target and old file) - both are met on every explored run, which is what the check decides on explored "
         "inputs only: the procedure is run in-process with the real library against a reference server with every request "
         "logged, and judged (target == B, validation 1, requested bytes == extents of chunks neither verified-present nor "
         "available intact from A, none twice) over file pairs x initial targets x damaged old files x limits {1,2,3,7,127,255,-1} "
@@ -186,7 +186,7 @@ CLAIMED = {
         "too-many-ranges, uneven socket writes) and judged by the same predicate on the server's request log and the file it left.",
    design_ref="DESIGN.md section 7a C04",
    note="Partial: soundness and completeness are theorems about the model; completeness rests on the hypotheses Honest (regex oracle "
-        "+ response text) and Marks (shape of the marks after scan/copy/reset), which are checked on explored runs, not proved; the "
+        "+ response text) and 'the scan marks chunks without stored bytes valid', which are checked on explored runs, not proved; the "
         "exact request set (nothing fetched twice across rounds) is request_only_missing + the predicate on explored runs "
         "(soundness hypotheses: the old file has the same chunk checksum type; an empty dictionary entry has no stored bytes). "
         "libcurl and zckdl's own plumbing (range back-off, --fail-no-ranges) are not modelled: they are exercised by the real-zckdl "
@@ -203,14 +203,14 @@ CLAIMED = {
         "later transfers, the scan trusts a chunk exactly when all its stored bytes are there and hash to the checksum; and C04's "
         "update_yields_B holds from any crash state: a restart that ends without error and with every chunk valid has produced B "
         "(or a collision); a chunk completely and correctly on disk at the interruption is marked valid by the restart's scan "
-        "(C09 find_valid_exact) and is in no request of the restart (C04 present_not_requested / valid_not_requested).  CONVERGENCE is proved for well-formed responses (restart_converges, from C04 loop_complete): from ANY crash state the restart's fetch loop ends without error and with every chunk valid and present, hence B or a collision (hypotheses Honest and Marks as in C04).  Decided on explored inputs: the real library is run in-process with the k-th write(2) on the "
+        "(C09 find_valid_exact) and is in no request of the restart (C04 present_not_requested / valid_not_requested).  CONVERGENCE is proved for well-formed responses (restart_converges, from C04 loop_complete): from ANY crash state the restart's fetch loop ends without error and with every chunk valid and present, hence B or a collision (hypotheses: Honest as in C04, and marks one per chunk, 0 or 1, with empty chunks valid - which marks_of_scan derives from the scan).  Decided on explored inputs: the real library is run in-process with the k-th write(2) on the "
         "target cut short (none/half/all bytes) and the run abandoned, for EVERY k of small scenarios and for chains of 2-5 "
         "interruptions; the restart is judged from the target as the interruption left it: converges to B, its scan trusts only "
         "verified-present chunks, its requests are exactly the chunks not present and not available from A.  The REAL zckdl binary "
         "is also killed (LD_PRELOAD: _exit inside the k-th write(2) on the target, none/half/all bytes stored) against the loopback "
         "range server and run again to completion, judged the same way from the file the kill left.",
    design_ref="DESIGN.md section 7 C11",
-   note="Partial: convergence rests on the hypotheses Honest / Marks of C04 (checked on every kill point explored); process death is modelled as "
+   note="Partial: convergence rests on the hypotheses of C04's completeness (checked on every kill point explored); process death is modelled as "
         "abandoning the contexts inside write(2) (siglongjmp), torn writes below write(2) granularity are not considered.",
    technique="Lean 4 proof (corollaries of the C04/C05/C09 theorems, which quantify over arbitrary initial targets) + exhaustive "
              "kill-point enumeration over write(2) calls as correspondence and search"),
